@@ -206,6 +206,9 @@ func (c *Ctx) eval(env *Env, e ast.Expr) Val {
 				if su, ok := s.ElemT.Underlying().(*types.Struct); ok {
 					return StructPtr{c.sliceElemObj(env.st, s, i), typeKey(s.ElemT), su, s.ElemT}
 				}
+				if _, ok := s.ElemT.Underlying().(*types.Slice); ok && env.fr != nil {
+					return env.fr.loadLoc(env.st, "F.sliceof."+sanitize(s.ElemT.String()), c.sliceElemObj(env.st, s, i), s.ElemT)
+				}
 			}
 			h := c.heap(env.st, "H."+string(s.Elem), heapSort(s.Elem))
 			return c.sel(c.sel(h, s.ID), addInt(s.Off, i))
@@ -300,6 +303,10 @@ func (c *Ctx) ndLen(x IfaceV) T {
 }
 
 func (c *Ctx) evalSelector(env *Env, x *ast.SelectorExpr) Val {
+	if id, ok := x.X.(*ast.Ident); ok && id.Name == "ghost" {
+		// ghost.NAME: a global ghost variable (integer), part of the state
+		return c.ghostCell(env.st, x.Sel.Name)
+	}
 	b := c.eval(env, x.X)
 	switch v := b.(type) {
 	case IfaceV:
@@ -880,4 +887,23 @@ func (c *Ctx) applyUF(fv FuncV, args []Val) Val {
 func atoi(s string) int {
 	n, _ := strconv.Atoi(s)
 	return n
+}
+
+// ghostCell returns the current value of the global ghost variable name.
+func (c *Ctx) ghostCell(st *State, name string) T {
+	key := "ghost." + name
+	if v, ok := st.cells[key]; ok {
+		return v.(T)
+	}
+	if c.ghost0 == nil {
+		c.ghost0 = map[string]T{}
+	}
+	v, ok := c.ghost0[key]
+	if !ok {
+		v = c.fresh("ghost_"+name, SInt)
+		c.ghost0[key] = v
+		c.cellTypes[key] = types.Typ[types.Int]
+	}
+	st.cells[key] = v
+	return v
 }
